@@ -90,6 +90,7 @@ func cmdCheck(args []string) int {
 	tier := fs.String("tier", envOr("VERIF_TIER", "quick"), "quick|thorough")
 	keep := fs.String("keep", "", "keep query files")
 	only := fs.String("only", "", "restrict to functions matching this regexp (debugging; evidence not written)")
+	noSelftest := fs.Bool("noselftest", false, "skip the mutant corpus")
 	fs.Parse(args[min(1, len(args)):])
 	if len(args) < 1 {
 		fmt.Fprintln(os.Stderr, "usage: govc check <property> [--tier quick|thorough]")
@@ -304,7 +305,16 @@ func cmdCheck(args []string) int {
 	for _, sp := range pd.Special {
 		rep.runSpecial(sp)
 	}
+	// 3b. self-test: must-fail / must-pass corpus (two canaries in the quick tier, all in thorough)
+	if !*noSelftest && onlyRe == nil {
+		n := 2
+		if *tier == "thorough" {
+			n = 0
+		}
+		rep.selftest = selftestFor(id, n, envOr("GOVC_REPO", "/repo"), verif)
+	}
 	// 4. verdicts
+	rep.onlyMode = onlyRe != nil
 	code := rep.verdicts()
 	if rep.structFail && code == 0 {
 		code = 1
@@ -346,6 +356,7 @@ type report struct {
 	selftest     map[string]any
 	notUnder     []string
 	structFail   bool
+	onlyMode     bool
 }
 
 func (r *report) loadKnown() {
@@ -417,7 +428,7 @@ func (r *report) verdicts() int {
 		}
 	}
 	total := len(r.obligs) + r.extraObl
-	if total < r.pd.MinObligs && len(r.undecided) == 0 {
+	if total < r.pd.MinObligs && len(r.undecided) == 0 && !r.onlyMode {
 		fmt.Printf("ENGINE-ERROR: %d obligations generated, census minimum is %d\n", total, r.pd.MinObligs)
 		r.engineErr = append(r.engineErr, "obligation count below census")
 		if code == 0 {
@@ -443,7 +454,7 @@ func (r *report) replay(o *Oblig, dir string) (string, bool) {
 	var sb strings.Builder
 	fmt.Fprintf(&sb, "property: %s\nobligation: %s\nfunction: %s\nat: %s\nkind: %s\nclause: %s\nstatus: %s (solver %s, %.2fs)\n", r.id, o.Name, o.Fn, o.PosStr, o.Kind, o.Detail, o.Status, o.Solver, o.Time)
 	reproduced := false
-	if o.Status == "sat" {
+	if o.Status == "sat" && os.Getenv("GOVC_NOREPLAY") == "" {
 		rr := r.eng.replayObligation(o, r.cfg)
 		sb.WriteString(rr.text)
 		reproduced = rr.reproduced
